@@ -113,7 +113,7 @@ def harnesses(tier):
     stubs = ['fakezmq', 'JSON envelope carried as dict', 'virtual clock (symbolic now)', 'logger off']
     assume = ['client table pre-state: arbitrary state satisfying the representation invariant of DESIGN.md 4.19 (<=2 synchronized + 1 ephemeral client)',
               'requests reach the publisher in per-connection FIFO order']
-    return [
+    hs = [
         Harness('c04.send_step', send_step(2 if q else 3), twin=send_step(2, planted='oracle'),
                 bounds={'clients in pre-state': '<=3 (2 sync, 1 ephemeral), requested flags free, t_last/prev_id/now/min_send_id unbounded Int',
                         'queued requests': 2 if q else 3, 'request kinds': 'request / new / CLOSE, ids unbounded', 'send timeout': 0},
@@ -125,6 +125,19 @@ def harnesses(tier):
                 bounds={'sources': 2, 'forms': '2 x 3 (sync/?/??)', 'publishes_per_source': 2, 'poll_decisions': 12, 'poll time-outs': '<=2'},
                 functions=fn, stubs=stubs, assumptions=assume, budget_s=900),
     ]
+    from props import s_level as SL
+    tw = SL.c04_stall('direct', {}, {'pA': 0, 'pB': 0}, planted=True)
+    if q:
+        hs.append(SL.H('c04.S.direct', SL.c04_stall('direct', {'pA': (0, 300)}, {'pB': 50}), twin=tw,
+                       bounds={'topology': 'producer -> consumer; consumer stops calling recv() after 1 or 2 frames for 4000 ms (< connection timeout)', 'free timing (ms)': {'pA': [0, 300]}, 'fixed': {'pB': 50, 'd': 10}}))
+        hs.append(SL.H('c04.S.relay', SL.c04_stall('relay', {'pA': (0, 300)}, {'pB': 50}),
+                       bounds={'topology': 'producer -> relay -> stalled consumer', 'free timing (ms)': {'pA': [0, 300]}}))
+    else:
+        hs.append(SL.H('c04.S.direct', SL.c04_stall('direct', {'pA': (0, 300), 'pB': (0, 300)}), twin=tw, bounds={'topology': 'direct', 'free timing (ms)': {'pA': [0, 300], 'pB': [0, 300]}}, budget=3000))
+        hs.append(SL.H('c04.S.direct.delay', SL.c04_stall('direct', {'d': (1, 99)}, {'pA': 20, 'pB': 50}), bounds={'topology': 'direct', 'free timing (ms)': {'d': [1, 99]}}, budget=3000))
+        hs.append(SL.H('c04.S.relay', SL.c04_stall('relay', {'pA': (0, 300), 'pB': (0, 300)}), bounds={'topology': 'relay', 'free timing (ms)': {'pA': [0, 300], 'pB': [0, 300]}}, budget=3000))
+        hs.append(SL.H('c04.S.two_consumers', SL.c04_stall('two', {'pA': (0, 300)}, {'pB': 50}), bounds={'topology': 'one of two consumers stalls', 'free timing (ms)': {'pA': [0, 300]}}, budget=3000))
+    return hs
 
 
 EXPLANATION = ('bounded symbolic execution of the real ZMQSender.send from an arbitrary (symbolic) client table and request backlog, and of '
